@@ -107,7 +107,7 @@ EXPORT_KEYS = ["transcript_id", "transcript_name", "transcript_biotype", "protei
                "feature_collection_id"]
 
 
-TYPED_VALS = [[3], [3, 12], [0], [2.5], [1.0, 2.5], [True], [True, False], [False]]
+TYPED_VALS = [[3], [3, 12], [0], [2.5], [1.0, 2.5], [True], [True, False], [False], [1], [1.0], [0.0], [1, 0]]
 
 
 def gen_qualifiers(rng, max_keys=3, keys=None, vals=None, p_none=0.35, collide_p=0.12, typed_p=0.0):
